@@ -177,10 +177,18 @@ def eq_compared_attrs(model: Model, fn: FuncInfo) -> Tuple[Set[str], Optional[Se
             for a in args:
                 x = is_self_attr(a, sn)
                 if x == '__dict__':
+                    # the ignore list: keyword `ignore_keys=` or the third positional argument, a literal or a local bound once to one
                     ignore = set()
-                    for k in n.keywords:
-                        if k.arg == 'ignore_keys' and isinstance(k.value, (ast.List, ast.Tuple, ast.Set)):
-                            ignore = {e.value for e in k.value.elts if isinstance(e, ast.Constant)}
+                    cand = next((k.value for k in n.keywords if k.arg == 'ignore_keys'), None)
+                    if cand is None and len(n.args) >= 3:
+                        cand = n.args[2]
+                    if isinstance(cand, ast.Name) and cand.id in lists:
+                        ignore = set(lists[cand.id])
+                    elif isinstance(cand, (ast.List, ast.Tuple, ast.Set)):
+                        ignore = {e.value for e in cand.elts if isinstance(e, ast.Constant)}
+                    elif cand is not None:
+                        raise AnalysisError('the ignore list `%s` of the __dict__ comparison in %s is not a literal list of names (cannot tell)'
+                                            % (norm(cand)[:40], fn.qualname))
                 elif x is not None and norm(n.func) in ('np.array_equal', 'numpy.array_equal', 'np.allclose'):
                     attrs.add(x)
     return attrs, ignore
@@ -198,4 +206,80 @@ def instance_attrs(model: Model, cls) -> Set[str]:
                 for n in ast.walk(fn.node):
                     if isinstance(n, ast.Attribute) and isinstance(n.ctx, ast.Store) and is_self_attr(n, sn):
                         out.add(n.attr)
+    return out
+
+
+def decode_outcomes(fn: FuncInfo, keys: Set[str], dname: Optional[str] = None, limit: int = 256):
+    """Partial evaluation of a JSON object hook on a dictionary that has EXACTLY the string keys `keys`.
+
+    Membership tests `'k' in d` / `'k' not in d` / `d.keys() >= {...}` and `isinstance(d, dict)` are decided; every other
+    test is unknown and both branches are followed.  Returns [(kind, keys_read, keys_tested)] for every feasible path,
+    kind in {'unchanged' (returns the dictionary itself), 'decoded' (returns something else), 'raise', 'fall-off'}."""
+    if dname is None:
+        dname = [p for p in fn.params if p not in ('self', 'cls')][0]
+    out = []
+
+    def tv(t):
+        """three-valued truth of a test: True / False / None"""
+        if isinstance(t, ast.UnaryOp) and isinstance(t.op, ast.Not):
+            v = tv(t.operand)
+            return None if v is None else not v
+        if isinstance(t, ast.BoolOp):
+            vs = [tv(x) for x in t.values]
+            if isinstance(t.op, ast.And):
+                if any(v is False for v in vs):
+                    return False
+                return True if all(v is True for v in vs) else None
+            if any(v is True for v in vs):
+                return True
+            return False if all(v is False for v in vs) else None
+        if isinstance(t, ast.Call) and norm(t.func) == 'isinstance' and len(t.args) == 2 and isinstance(t.args[0], ast.Name) and t.args[0].id == dname:
+            return True if 'dict' in norm(t.args[1]) or 'Mapping' in norm(t.args[1]) else None
+        if isinstance(t, ast.Compare) and len(t.ops) == 1:
+            a, op, b = t.left, t.ops[0], t.comparators[0]
+            if isinstance(a, ast.Constant) and isinstance(a.value, str) and isinstance(op, (ast.In, ast.NotIn)):
+                tgt = b
+                if isinstance(tgt, ast.Call) and isinstance(tgt.func, ast.Attribute) and tgt.func.attr == 'keys':
+                    tgt = tgt.func.value
+                if isinstance(tgt, ast.Name) and tgt.id == dname:
+                    r = a.value in keys
+                    return r if isinstance(op, ast.In) else not r
+        return None
+
+    def tested(t) -> Set[str]:
+        o = set()
+        for c in ast.walk(t):
+            if isinstance(c, ast.Compare) and isinstance(c.left, ast.Constant) and isinstance(c.left.value, str) and len(c.ops) == 1 \
+                    and isinstance(c.ops[0], (ast.In, ast.NotIn)):
+                o.add(c.left.value)
+        return o
+
+    def run(stmts, read, tst, conts):
+        if len(out) > limit:
+            return
+        for i, s in enumerate(stmts):
+            rest = stmts[i + 1:]
+            if isinstance(s, ast.Return):
+                r = read | _keys_read(s, dname)
+                kind = 'unchanged' if isinstance(s.value, ast.Name) and s.value.id == dname else 'decoded'
+                out.append((kind, frozenset(r), frozenset(tst)))
+                return
+            if isinstance(s, ast.Raise):
+                out.append(('raise', frozenset(read), frozenset(tst)))
+                return
+            if isinstance(s, ast.If):
+                v = tv(s.test)
+                rd = read | _keys_read(s.test, dname)
+                ts = tst | tested(s.test)
+                if v is not False:
+                    run(s.body + rest, set(rd), set(ts), conts)
+                if v is not True:
+                    run(s.orelse + rest, set(rd), set(ts), conts)
+                return
+            if isinstance(s, (ast.For, ast.While, ast.Try, ast.With)):
+                read |= _keys_read(s, dname)
+                continue
+            read |= _keys_read(s, dname)
+        out.append(('fall-off', frozenset(read), frozenset(tst)))
+    run(list(fn.node.body), set(), set(), None)
     return out
